@@ -646,8 +646,22 @@ func (b *BaseStore) Sync(ctx context.Context, heads []ipfslog.Entry) error {
 	verified := make([]ipfslog.Entry, 0, len(heads))
 
 	for _, h := range heads {
-		if h == nil {
+		if h == nil || !h.Defined() {
+			// also covers a nil *entry.Entry wrapped in the interface, which is
+			// what a "null" head in a received message decodes to
 			b.Logger().Debug("warning: Given input entry was 'null'.")
+			continue
+		}
+
+		// heads come off the wire: without clock, identity or signatures they
+		// cannot be encoded (the encoder dereferences them) and are not entries
+		if clock := h.GetClock(); clock == nil || !clock.Defined() {
+			b.Logger().Debug("warning: Given input entry has no clock and was discarded")
+			continue
+		}
+
+		if id := h.GetIdentity(); id == nil || id.Signatures == nil {
+			b.Logger().Debug("warning: Given input entry has no signed identity and was discarded")
 			continue
 		}
 
